@@ -357,7 +357,7 @@ func main() {
 					cAdd = append(cAdd, count(func() { z.AddB(0, k) }))
 					cRem = append(cRem, count(func() { z.RemoveB(k) }))
 				}
-				term := fmt.Sprintf("CSkip %d %d%%nat %s %s [%s; %s; %s]", n, d.Highest, vhlib.NatList(heights), vhlib.NatList(reach),
+				term := fmt.Sprintf("CSkip %d %d%%nat %s %s [%s; %s; %s]", n, d.Highest, bigNatList(heights), vhlib.NatList(reach),
 					vhlib.NatList(cRank), vhlib.NatList(cAdd), vhlib.NatList(cRem))
 				w.Case(term, "zset", true, []string{"zset.lanes", "zset.Rank", "zset.AddB", "zset.RemoveB"},
 					map[string]interface{}{"kind": "zset", "n": n, "profile": prof, "highest": d.Highest})
@@ -394,7 +394,7 @@ func main() {
 					cStore = append(cStore, count(func() { m.Store(k, k) }))
 					cDel = append(cDel, count(func() { m.Delete(k) }))
 				}
-				term := fmt.Sprintf("CSkipLanes %d %d%%nat %s %s [%s; %s; %s]", n, hi, vhlib.IntList(lanes), vhlib.IntList(levels),
+				term := fmt.Sprintf("CSkipLanes %d %d%%nat %s %s [%s; %s; %s]", n, hi, bigIntList(lanes), bigIntList(levels),
 					vhlib.NatList(cLoad), vhlib.NatList(cStore), vhlib.NatList(cDel))
 				w.Case(term, "skipmap", true, []string{"skipmap.lanes", "skipmap.Load", "skipmap.Store", "skipmap.Delete"},
 					map[string]interface{}{"kind": "skipmap", "n": n, "profile": prof})
@@ -409,7 +409,7 @@ func main() {
 					cAdd = append(cAdd, count(func() { s.AddB(k) }))
 					cRem = append(cRem, count(func() { s.RemoveB(k) }))
 				}
-				term = fmt.Sprintf("CSkipLanes %d %d%%nat %s %s [%s; %s; %s]", n, hi, vhlib.IntList(lanes), vhlib.IntList(levels),
+				term = fmt.Sprintf("CSkipLanes %d %d%%nat %s %s [%s; %s; %s]", n, hi, bigIntList(lanes), bigIntList(levels),
 					vhlib.NatList(cCon), vhlib.NatList(cAdd), vhlib.NatList(cRem))
 				w.Case(term, "skipset", true, []string{"skipset.lanes", "skipset.Contains", "skipset.AddB", "skipset.RemoveB"},
 					map[string]interface{}{"kind": "skipset", "n": n, "profile": prof})
